@@ -310,6 +310,11 @@ def run(ctx):
             if n_model <= 2:
                 ctx.violation('model-differs-from-impl', f'{line(c)[:120]}: impl `{impl[:80]}` model `{model[:80]}`',
                               {'cases': [jcase(c)], 'impl': impl, 'model': model, 'spec': spec}, no_failing_input=True)
+    if not quick and not ctx.replay:
+        k = min(len(cases), 20000)
+        loud = ctx.harness('cresp', [line(c) for c in cases[:k]], args=['--decode', 'max'])
+        diff = [i for i in range(k) if loud[i] != results[i][0]]
+        ctx.oblige('decode-level-max-gives-identical-results', not diff, f'{len(diff)} of {k} lines differ, first: {line(cases[diff[0]])[:100] if diff else ""}')
     ctx.oblige('correspondence:handle-response-vs-model', n_model == 0, f'{n_model} cases where the implementation differs from the model only (error class)')
     ctx.oblige('correspondence:handle-response-vs-spec', n_spec == 0, f'{n_spec} cases where the implementation differs from the Spec')
     if not ctx.replay:
